@@ -23,13 +23,50 @@ type scen struct {
 	S, R, B, M int
 	Recv       string // "arrow", "method", "forin", "range"
 	Spawn      string // "go", "spawn", "fnspawn"
+	Args       string // "" = producer/consumer scenario; otherwise a spawn-argument scenario: "reassign", "mutate-list", "closure-counter", "error"
 }
 
 func (s scen) name() string {
+	if s.Args != "" {
+		return fmt.Sprintf("spawn-arguments=%s spawn=%s", s.Args, s.Spawn)
+	}
 	return fmt.Sprintf("senders=%d receivers=%d buffer=%d msgs=%d recv=%s spawn=%s", s.S, s.R, s.B, s.M, s.Recv, s.Spawn)
 }
 
+func (s scen) argsSource() string {
+	start := func(fn, args, into string) string {
+		switch s.Spawn {
+		case "spawn":
+			return fmt.Sprintf("%s := spawn(%s, %s)\n", into, fn, args)
+		case "fnspawn":
+			return fmt.Sprintf("%s := %s.spawn(%s)\n", into, fn, args)
+		}
+		return fmt.Sprintf("%s := chan(1)\ngo func(c, a, b) { c <- (%s(a, b)) }(%s, %s)\n", into, fn, into, args)
+	}
+	wait := func(h string) string {
+		if s.Spawn == "go" {
+			return "<-" + h
+		}
+		return h + ".wait()"
+	}
+	switch s.Args {
+	case "reassign":
+		// the callee must see the values given at the spawn site although the spawner reassigns its variables at once
+		return "func pair(a, b) { return [a, b] }\nx := 1\ny := \"s\"\n" + start("pair", "x, y", "t") + "x = 2\ny = \"changed\"\ngot(\"w\", " + wait("t") + ")\ngot(\"x\", x)\n\"done\"\n"
+	case "closure-counter":
+		// two spawned calls increment a shared counter under a channel used as a lock; both results and the total are exact
+		return "total := 0\nlock := chan(1)\nfunc inc(k, d) { lock <- 1\n total = total + d\n v := total\n <-lock\n return k }\n" + start("inc", "1, 10", "t1") + start("inc", "2, 5", "t2") + "got(\"w\", " + wait("t1") + ")\ngot(\"w\", " + wait("t2") + ")\ngot(\"n\", total)\n\"done\"\n"
+	case "error":
+		// wait() returns the spawned call's error
+		return "func boom(a, b) { return [a][b] }\n" + start("boom", "1, 5", "t") + "r := try(func() { return " + wait("t") + " }, func(e) { return \"caught\" })\ngot(\"w\", r)\n\"done\"\n"
+	}
+	return ""
+}
+
 func (s scen) source() string {
+	if s.Args != "" {
+		return s.argsSource()
+	}
 	var sb strings.Builder
 	fmt.Fprintf(&sb, "ch := chan(%d)\n", s.B)
 	sb.WriteString("func sender(id) {\n")
@@ -120,6 +157,30 @@ func (s scen) scenario() *dsched.Scenario {
 func (s scen) judge(x *dsched.Exec, st *state) (violation, key string) {
 	notes := append([]string{}, x.Notes...)
 	key = strings.Join(notes, " ")
+	if s.Args != "" {
+		if x.Deadlock {
+			return "deadlock: " + key, "deadlock"
+		}
+		if !st.done || st.out.Stage != "ok" {
+			return fmt.Sprintf("evaluation failed: %s %s", st.out.Stage, st.out.ErrText), "error"
+		}
+		if len(x.Leftover) > 0 {
+			return "tasks still running after the evaluation returned: " + strings.Join(x.Leftover, "; "), "leftover"
+		}
+		want := map[string]string{
+			"reassign":        `"w":[1, "s"] "x":2`,
+			"closure-counter": `"w":1 "w":2 "n":15`,
+			"error":           `"w":"caught"`,
+		}[s.Args]
+		if s.Args == "error" && s.Spawn == "go" {
+			// the go statement has no handle: the error of the spawned call is not observable through wait()
+			return "", key
+		}
+		if key != want {
+			return fmt.Sprintf("spawned call / wait() observed %s, expected %s", key, want), key
+		}
+		return "", key
+	}
 	if x.Deadlock {
 		return "deadlock: no task is enabled; " + key, "deadlock"
 	}
@@ -203,7 +264,15 @@ func scenarios(thorough bool) []scen {
 	var out []scen
 	recvs := []string{"arrow", "method", "forin", "range"}
 	spawns := []string{"spawn", "fnspawn", "go"}
-	add := func(S, R, B, M int, rv, sp string) { out = append(out, scen{S, R, B, M, rv, sp}) }
+	add := func(S, R, B, M int, rv, sp string) { out = append(out, scen{S, R, B, M, rv, sp, ""}) }
+	for _, a := range []string{"reassign", "closure-counter", "error"} {
+		for _, sp := range spawns {
+			if a == "error" && sp == "go" {
+				continue // the go statement has no handle to wait on
+			}
+			out = append(out, scen{Spawn: sp, Args: a})
+		}
+	}
 	if !thorough {
 		for _, sr := range [][2]int{{1, 1}, {1, 2}, {2, 1}} {
 			for _, b := range []int{0, 1} {
@@ -319,7 +388,7 @@ func signature(s scen, v string) string {
 		kind = "deadlock"
 	case strings.Contains(v, "out of order"):
 		kind = "order"
-	case strings.HasPrefix(v, "wait()"):
+	case strings.HasPrefix(v, "wait()"), strings.HasPrefix(v, "spawned call"):
 		kind = "wait-value"
 	case strings.HasPrefix(v, "unsynchronised"):
 		kind = "race"
